@@ -45,6 +45,132 @@ RESUME_WHEN = {"verify": "VerifyConnection time", "getcert": "GetClientCertifica
                "mid": "mid-handshake (ConnectionState() from another goroutine)", "established": "established time"}
 
 
+EXPORT_POINTS = {
+    "live": "ConnectionState() of the open connection, exported while open",
+    "peer-closed-held": "State taken while open, exported after the PEER closed",
+    "peer-closed-late": "ConnectionState() taken after the peer closed",
+    "held": "State taken with ConnectionState() while open, kept across the local Close(), exported after Close",
+    "late": "ConnectionState() taken from the closed Conn",
+    "serialized": "MarshalBinary/UnmarshalBinary copy of the State taken while open, exported after Close",
+    "serialized-after-resume": "the unmarshalled State that was given to Resume, exported after the resumed Conn was closed",
+    "late-serialized": "MarshalBinary/UnmarshalBinary of the State taken from the closed Conn",
+}
+
+
+def export_point_text(point):
+    if point in EXPORT_POINTS:
+        return EXPORT_POINTS[point]
+    base = {"resumed": "Resume from the serialised State taken while open",
+            "reresumed-held": "Resume from the *State held across Close (no serialisation)",
+            "reresumed-late": "Resume from the State taken from the closed Conn (no serialisation)",
+            "reresumed-late-serialized": "Resume from the serialised State taken from the closed Conn"}
+    for suffix, txt in (("-held", "; State of the resumed Conn taken while open, exported after its Close"),
+                        ("-late", "; ConnectionState() of the resumed Conn after its Close"),
+                        ("", "; ConnectionState() of the resumed Conn while open")):
+        stem = point[:len(point) - len(suffix)] if suffix else point
+        if (not suffix or point.endswith(suffix)) and stem in base:
+            return base[stem] + txt
+    return point
+
+
+def exporter_lifecycle(chk):
+    """last sentence of C07 at every point of the lifecycle where the API hands out a value (TestVerifC07Export):
+    (i) every successful export equals the live one (and the peer's); (ii) no successful export equals a value the
+    harness's own PRF / HKDF computes from the captured hellos and public constants."""
+    out = vlib.out_path("c07x")
+    rc, o = vlib.go_test(".", "^TestVerifC07Export$", {"VERIF_SEED": chk.seed, "VERIF_TIER": chk.tier, "VERIF_OUT": out},
+                         tags=["c07"], timeout=1500, race=(chk.tier == "thorough"))
+    rows = [r for r in vlib.read_jsonl(out) if r.get("kind") == "export"]
+    vlib.cleanup(out)
+    found = False
+    if rc != 0:
+        kind = vlib.classify_go_failure(o)
+        if kind == "panic":
+            found = True
+            chk.finding("state.go ExportKeyingMaterial / conn.go Close", {"monitor": "panic", "leg": "exporter-lifecycle"},
+                        "panic during a C07 exporter-lifecycle session", {"output": o[-4000:]})
+        else:
+            chk.broken("correspondence harness TestVerifC07Export no longer runs against /repo (%s)" % kind, o)
+    if rc == 0 and not rows:
+        chk.broken("TestVerifC07Export produced no observation", o)
+    n_exp, keys = 0, []
+    done_pub, done_diff = set(), set()
+    for r in rows:
+        if not r["done"] or r.get("err"):
+            chk.broken("exporter-lifecycle session did not run (%s) [variant %s]" % (r.get("err"), r["variant"]), str(r)[:3000])
+            break
+        if not r.get("ref_ok"):
+            chk.broken("exporter-lifecycle: the harness's own PRF / HKDF exporter keyed with the real secret does not "
+                       "reproduce the live export [variant %s]: the public recomputation would prove nothing" % r["variant"],
+                       str(r)[:3000])
+            break
+        live = {}
+        for e in r["exports"]:
+            if e["point"] == "live" and e["side"] == "client" and e["ok"]:
+                live[(e["label"], e["len"])] = e["hex"]
+        if not live:
+            chk.broken("exporter-lifecycle: no export on the live client connection [variant %s]" % r["variant"], str(r)[:3000])
+            break
+        for e in r["exports"]:
+            n_exp += 1
+            keys.append((r["variant"], e["point"], e["side"], e["ok"], e["len"] if e["ok"] else e.get("err", "")[:50]))
+            rp = {"variant": r["variant"], "point": e["point"], "side": e["side"], "label": e["label"], "length": e["len"],
+                  "client_random": r.get("cr"), "server_random": r.get("sr"), "cipher_suite": r.get("suite"),
+                  "exported": e.get("hex"), "exported_live": live.get((e["label"], e["len"])),
+                  "states": [x for x in (r.get("state_log") or []) if x.startswith(e["point"] + "/" + e["side"])],
+                  "how": "perfect network; handshake of `variant`; one payload each way; ConnectionState() on both sides and "
+                         "ExportKeyingMaterial(label, nil, length) (= exported_live); client.Close(), server.Close(); then the "
+                         "State is obtained as `point` says (%s) and ExportKeyingMaterial(label, nil, length) is called "
+                         "again; client_random/server_random are bytes 2..34 of the ClientHello/ServerHello bodies on the "
+                         "wire" % export_point_text(e["point"])}
+            if (e.get("err") or "").startswith("PANIC"):
+                found = True
+                chk.finding("state.go ExportKeyingMaterial", {"monitor": "panic", "leg": "exporter-lifecycle", "v13": r["v13"]},
+                            "ExportKeyingMaterial panicked (%s) [variant %s, %s, %s side]" % (
+                                e["err"], r["variant"], e["point"], e["side"]), rp)
+                continue
+            if not e["ok"]:
+                continue
+            cls = e["point"]
+            if e.get("public"):
+                if (r["v13"],) in done_pub:
+                    continue
+                done_pub.add((r["v13"],))
+                found = True
+                rp["formula"] = e["public"]
+                chk.finding("state.go ExportKeyingMaterial / generateState / conn.go Close (secret shared with or taken from "
+                            "the connection after its lifetime)",
+                            {"monitor": "exporter computable from the cleartext handshake", "leg": "exporter-lifecycle",
+                             "v13": r["v13"], "point": cls},
+                            "ExportKeyingMaterial(%r, nil, %d) succeeded and returned %s..., which equals %s computed by the "
+                            "harness's own implementation from the captured hello randoms alone (the live connection exported "
+                            "%s...) [variant %s, %s side, point: %s]" % (
+                                e["label"], e["len"], e["hex"][:24], e["public"], (rp["exported_live"] or "?")[:24],
+                                r["variant"], e["side"], export_point_text(e["point"])), rp)
+            elif e["hex"] != live.get((e["label"], e["len"])):
+                if (r["v13"],) in done_diff or (r["v13"],) in done_pub:
+                    continue
+                done_diff.add((r["v13"],))
+                found = True
+                chk.finding("state.go ExportKeyingMaterial / generateState (State of one session)",
+                            {"monitor": "export differs from the live connection's", "leg": "exporter-lifecycle",
+                             "v13": r["v13"], "point": "live/server" if e["point"] == "live" else cls},
+                            "ExportKeyingMaterial(%r, nil, %d) succeeded with %s... but the live client connection of the same "
+                            "session exported %s... [variant %s, %s side, point: %s]" % (
+                                e["label"], e["len"], e["hex"][:24], (rp["exported_live"] or "?")[:24], r["variant"],
+                                e["side"], export_point_text(e["point"])), rp)
+    chk.count("exporter-lifecycle", n_exp, keys,
+              samples=[{"variant": r["variant"], "points": r["points"][:6], "first": (r["exports"] or [None])[0]} for r in rows[:2]])
+    chk.leg_info("exporter-lifecycle", sessions=len(rows), exports=n_exp,
+                 succeeded=sum(1 for r in rows for e in r["exports"] if e["ok"]),
+                 points=sorted({e["point"] for r in rows for e in r["exports"]}),
+                 refused=sorted({(r["v13"], x.split("/")[0] + ": " + x.split(": ", 1)[-1][:70]) for r in rows for x in r.get("refused") or []}),
+                 public_candidates_per_export=max([r.get("n_public", 0) for r in rows] or [0]),
+                 reference_selftest=sorted({r.get("ref_ok") or "FAILED" for r in rows}))
+    chk.cov["traces_validated_against_impl"] = chk.cov.get("traces_validated_against_impl", 0) + len(rows)
+    return found
+
+
 def run(chk):
     proved = chk.prove()
     out = vlib.out_path("c07")
@@ -214,6 +340,7 @@ def run(chk):
                          "how": "label 'EXPERIMENTAL verif c07', length 32; client_random / server_random = bytes 2..34 of "
                                 "the last ClientHello / ServerHello bodies on the wire"})
             break
+    found = exporter_lifecycle(chk) or found
     unopened = sum(r["unopened"] for r in sess)
     if unopened:
         bad = [r for r in sess if r["unopened"]][0]
@@ -268,7 +395,8 @@ def run(chk):
                  resumed=sum(1 for r in resumed if not r.get("refused")),
                  refusals=sorted({(r["mode"], (r.get("refused") or "")[:60]) for r in resumed if r.get("refused")}))
     chk.leg_info("empty-psk", completed=sum(1 for r in psk0 if r["done"]), results=sorted({(r["mode"], r.get("err", "")[:90]) for r in psk0}))
-    chk.cov["traces_validated_against_impl"] = len(sess) + len(inj) + len(psk0) + len(resumed)
+    chk.cov["traces_validated_against_impl"] = (chk.cov.get("traces_validated_against_impl", 0) + len(sess) + len(inj)
+                                                 + len(psk0) + len(resumed))
     chk.leg_info("wire-scan", sessions=len(sess), completed=sum(1 for r in sess if r["done"]),
                  not_completed=[(r["variant"], r["drop"]) for r in sess if not r["done"]],
                  datagrams=sum(r["datagrams"] for r in sess), records=n_rec,
